@@ -70,6 +70,12 @@ Qed.
 Lemma In_tl {A} (x : A) l : In x (tl l) -> In x l.
 Proof. destruct l; [intros [] | intros H; right; exact H]. Qed.
 
+Lemma In_seek_next e es k : In e (seek_next es k) -> In e es.
+Proof.
+  unfold seek_next. destruct (seek es k) as [|x r] eqn:E; [intros []|].
+  intros H. apply (In_seek e es k). rewrite E. destruct (bytes_eqb _ _); [right; exact H | exact H].
+Qed.
+
 (* every message of a lookup is a live entry of the store that passes ID.Match and ID.HasPrefix;
    at most [limit] of them; within the reply-size cap *)
 Theorem lookup_sound s now ssid from until start limit :
@@ -83,13 +89,13 @@ Proof.
   set (vis := filter (visible now) s).
   set (pos := match start with
               | [] => match new_prefix ssid until with Ok p => seek vis p | _ => [] end
-              | _ => tl (seek vis start) end).
+              | _ => seek_next vis start end).
   destruct (scan_spec pos ssid from until limit [] 0) as (added & E & A & B & C). cbv zeta in E, B, C.
   rewrite E. cbn [rev app]. rewrite E in B, C. cbn [rev app] in B, C.
   assert (Sub : forall e, In e pos -> In e vis).
   { intros e H. subst pos. destruct start as [|b st].
     - destruct (new_prefix ssid until) as [p| |]; [exact (In_seek _ _ _ H) | destruct H | destruct H].
-    - apply In_tl in H. exact (In_seek _ _ _ H). }
+    - apply In_seek_next in H. exact H. }
   split; [|split].
   - intros m Hm. destruct (A m Hm) as (e & I & -> & M & P). exists e.
     apply Sub in I. unfold vis in I. apply filter_In in I. destruct I as [I V]. auto.
